@@ -865,7 +865,7 @@ func (g *gen) stmt(d int) []*Pipeline {
 	if g.inFn {
 		ret, flow = 3, 3
 	}
-	switch g.choose(10, 7, 6, 3, 4, 4, 4, 3, 3, 1, flow, ret, 3, 3, 1, 2, 1, 1, 1) {
+	switch g.choose(10, 7, 6, 3, 4, 4, 4, 3, 3, 1, flow, ret, 3, 3, 1, 2, 1, 1, 1, 3, 1) {
 	case 0:
 		return one(g.putStmt(d))
 	case 1:
@@ -911,6 +911,10 @@ func (g *gen) stmt(d int) []*Pipeline {
 		return one(g.badStmt(d))
 	case 18:
 		return g.compoundEmptyStmt(d)
+	case 19:
+		return g.streamStmt(d)
+	case 20:
+		return one(g.badBuiltinStmt())
 	default:
 		g.feat("exception-capture")
 		return one(pipe(cmd("put", g.expr(tyExc, d-1))))
@@ -1716,6 +1720,11 @@ func (g *gen) shadowedAbove(name string) bool {
 func genProgram(r *common.Rand, size int) (*Chunk, map[string]bool) {
 	g := &gen{r: r, feats: map[string]bool{}, budget: size}
 	g.push()
+	if g.chance(1, 4) {
+		// a program of pure value-stream / container builtins only (gen_stream.go)
+		g.feat("builtin-program")
+		return g.builtinProgram(), g.feats
+	}
 	depth := 2 + g.choose(1, 2, 3, 2, 1)
 	c := g.chunk(depth, 2+g.choose(1, 2, 3, 3, 2, 1))
 	if len(c.Pipes) == 0 {
